@@ -154,6 +154,11 @@ func (g *pgen) mainStmts(depth int, declared map[string]int) []zn.Stmt {
 					out = append(out, &zn.If{Conds: []zn.Expr{&zn.BoolLit{V: true}}, Blocks: [][]zn.Stmt{body}})
 				case 1:
 					lv := mainNames[g.pick(3, "lv")]
+					if g.pick(6, "lvany") == 0 {
+						// any name, predefined ones included, may be tried as a loop variable
+						lv = anyNames[g.pick(len(anyNames), "lvan")]
+						g.labels["loop-variable-any-name"] = true
+					}
 					out = append(out, &zn.ForEach{Names: []string{lv}, E: &zn.ListLit{Items: []zn.Expr{g.k(), g.k()}}, Body: append([]zn.Stmt{show("it", &zn.Var{Name: lv})}, body...)})
 					g.labels["loop-variable"] = true
 				case 2:
